@@ -9,7 +9,7 @@ UNITS = [
     ("harness/c13_cmath.cpp", [1, 2, 3], [1, 2, 3]),
     ("harness/c13_bits.cpp", [1, 2, 3, 4, 5, 6, 7], [1]),  # part 8 is thorough-only, added below
     ("harness/c13_cstr.cpp", [1, 2], [1, 2]),
-    ("harness/c13_kernels.cpp", [1, 2, 3, 4, 5, 6], []),
+    ("harness/c13_kernels.cpp", [1, 2, 3, 4, 5, 6, 7, 8], []),
 ]
 
 runs = []
@@ -32,36 +32,42 @@ prop = {
                  "machine also rejects UB) and once at run time from volatile-laundered arguments at -O0 and -O2; results compared bit "
                  "for bit (all NaNs equal); 'constant evaluation succeeds' is decided per entry by a requires-expression probe with "
                  "bisection, so a rejected argument is one named case, not a build failure",
-    "rule": "Tables (all duplicate-free by construction, nothing sampled). cmath exact set {floor, ceil, trunc, round, rint, lrint, llrint, "
-            "signbit, isnan, isinf, isfinite, fabs, abs} x {float, double, long double} over the boundary table B (+-0, +-inf, +-NaN, "
-            "denormal min/2x/3x/largest, normal min/max and neighbours, epsilon and neighbours, every n, n+-ulp, n+.25/.5/.75 and the "
-            "neighbours of n+.5 for n <= 4, 2^k with neighbours, +-1, +-0.5, x1.5 for k in {7,8,15,16,digits-3..digits+1,31..33,52..54,"
-            "62..65,100,127}, multiples of pi/2, an exponent walk {2^e, succ, pred(2^(e+1)), 1.5*2^e} every 8th/64th/1024th exponent "
-            "(thorough: every 1st/8th/128th, plus 1.25 and 1.75), a subnormal walk; about 450 values quick, about 3000/3000/1700 "
-            "thorough); {copysign, fmin, fmax, fdim, fmod, remainder, nextafter(float,double)} over B2 x B2 (46 values quick, about "
-            "110 thorough); fma over B3^3 (16 / 26 values). Out of the table: lrint/llrint arguments whose rounded value does not fit, "
-            "fmod/remainder with infinite x or zero y, fdim/fma whose exact result overflows, fma inf*0 and inf-inf (range / domain / "
-            "invalid-operation cases are not constant expressions by [library.c]). Bit and integer utilities: every value of the 8-bit "
-            "types, the 16-bit types completely (thorough) or on the lattice, the 32/64-bit lattice {0..20, every single bit b, b-1, "
-            "b+1, byte patterns, and all complements}; binary functions on all 65536 pairs of 8-bit values (add_sat, div_sat, midpoint, "
-            "idiv, gcd, lcm, cmp_less/equal/greater_equal over (i8,i8), (i8,u8), (u8,i8)), on small-lattice pairs for 16/32/64 bits "
-            "(thorough: lattice x lattice for 32 bits, every-third-bit lattice for 64 bits), rotl/rotr x every count in [-130,130], "
-            "set/reset/flip/test_bit x every position, ipow x exponents {0..8,15,31,63} (representable results), saturate_cast and "
-            "in_range for all 64 (To,From) pairs, bit_cast float<->u32/i32 and double<->u64/i64 over B and the lattice. cctype: 14 "
-            "functions x [-1,255]; cwctype: 14 functions x [0,0x17F] + 8 large code points. C strings (char and wchar_t): every ordered "
-            "pair of strings of length <= 3 (thorough 4) over {a, b, 0x80 / U+1F600}: strlen, strcmp, strspn, strcspn, strpbrk, strstr; "
-            "strncmp x n in [0,len+1]; strchr/strrchr x 5 characters (incl. NUL and an absent one); strcpy, strncpy, strcat, strncat "
-            "into a 16-element buffer (whole buffer compared). Single-path kernels: string_view find/rfind/find_*_of/compare/starts_with/"
-            "ends_with/contains/substr over all (hay <= 4, needle <= 2 over {a,b}, pos in [0,len+1]+npos) (thorough 5/3); all operation "
-            "sequences of length 4 (thorough 5) over 10 inplace_string<7>/<40> operations, 9 static_vector<int,4> operations and "
-            "(length 5/6) 6 inplace_vector<int,4> operations; to_chars + from_chars round trip for every 8-bit value and a 96-value "
-            "lattice of i32/u32/i64/u64 x bases {2,3,8,10,16,36} x buffer {exact fit, one short, roomy}; from_chars on every string of "
-            "length <= 3 (thorough 4) over {-,0,1,9,a,z,space} x bases {10,16,36}; year_month_day/weekday/sys_days for every day in "
-            "[-4000,4000] (thorough +-150000); duration_cast/floor/ceil/round/abs of milliseconds in [-3000,3000] (thorough +-20000) "
-            "to seconds and to ratio<5,7>; 20 algorithms on every sequence of length <= 5 (thorough 6) over {0,1,2} x every split "
-            "point. evaluations = table entries executed at run time and compared; distinct_nontrivial = entries whose argument "
-            "tuple is not all-zero / all-empty (+0.0, 0, empty strings, empty history), distinct by content hash (tables up to 20000 "
-            "entries) or by construction (product tables).",
+    "rule": "Tables (all duplicate-free by construction, nothing sampled; sizes are bounded by the compiler memory the constant "
+            "evaluator needs, 2-250 KB per entry). cmath exact set {floor, ceil, trunc, round, rint, lrint, llrint, signbit, isnan, "
+            "isinf, isfinite, fabs, abs} x {float, double, long double} over the boundary table B (+-0, +-inf, +-NaN, denormal "
+            "min/2x/3x/largest, normal min/max and neighbours, epsilon and neighbours, every n, n+-ulp, n+.25/.5/.75 and the "
+            "neighbours of n+.5 for n <= 4, 2^k with neighbours, +-1, +-0.5, x1.5 for k in {7,8,15,16,digits-3..digits+1,31..33,"
+            "52..54,62..65,100,127}, multiples of pi/2, an exponent walk {2^e, succ, pred(2^(e+1)), 1.5*2^e} every 8th/64th/1024th "
+            "exponent (thorough: every 1st/8th/128th, plus 1.25 and 1.75), a subnormal walk; about 450 values quick, about 3000 "
+            "thorough); {copysign, fmin, fmax, fdim, fmod, remainder, nextafter(float,double)} over B2 x B2 (46 values quick; about "
+            "110 thorough for float and double); fma over B3^3 (16 / 26 values). Out of the table: lrint/llrint arguments whose "
+            "rounded value does not fit, fmod/remainder with infinite x or zero y, fdim/fma whose exact result overflows or (fma) "
+            "underflows, fma inf*0 and inf-inf (range / domain / invalid-operation cases are not constant expressions by "
+            "[library.c]). Bit and integer utilities: every value of the 8-bit types, the 16-bit lattice (thorough: all 65536 values "
+            "for popcount, countl_zero, countr_zero, countr_one, bit_width, bit_floor, bit_ceil, byteswap), the 32/64-bit lattice "
+            "{0..20, every single bit b, b-1, b+1, byte patterns, and all complements}; binary functions on all 65536 pairs of 8-bit "
+            "values (add_sat, div_sat, midpoint, idiv, gcd, lcm for i8 and u8; cmp_less, cmp_equal over (i8,i8), (i8,u8), (u8,i8)), "
+            "on small-lattice pairs for 16/32/64 bits (thorough: every-second-bit lattice squared for 32 bits, every-fourth-bit "
+            "lattice squared for 64 bits), cmp_less/equal/greater_equal over five mixed-width type pairs, rotl/rotr x every count "
+            "in [-130,130], set/reset/flip/test_bit x every position, ipow x exponents {0..8,15,31,63} (representable results), "
+            "saturate_cast and in_range for all 64 (To,From) pairs, bit_cast float<->u32/i32 and double<->u64/i64 over B and the "
+            "lattice. cctype: 14 functions x [-1,255]; cwctype: 14 functions x [0,0x17F] + 8 large code points. C strings (char and "
+            "wchar_t): every ordered pair of strings of length <= 3 over {a, b, 0x80 / U+1F600}: strlen, strcmp, strspn, strcspn, "
+            "strpbrk, strstr (thorough: length <= 4); strncmp x n in [0,4]; strchr/strrchr x 5 characters (incl. NUL and an absent "
+            "one); strcpy, strncpy, strcat, strncat into a 16-element buffer (whole buffer hashed positionally). Single-path kernels: "
+            "string_view find/rfind/find_*_of/find_*_not_of/compare/starts_with/ends_with/contains/substr/==/< over all (hay <= 4, "
+            "needle <= 2 over {a,b}, pos in [0,len+1]+npos) (thorough 5/3), views in exact-size constexpr allocations so that the "
+            "compiler rejects any read outside a view; all operation sequences of length 3 (thorough 4) over 10 inplace_string<7> "
+            "and <40> operations, of length 4 over 9 static_vector<int,4> operations, of length 5 over 6 inplace_vector<int,4> "
+            "operations (state hashed after every step); to_chars + from_chars round trip for every 8-bit value and a 96-value "
+            "lattice of i32/u32/i64/u64 x bases {2,3,8,10,16,36} x buffer {exact fit, one short, roomy}, the buffer behind the "
+            "result checked for writes; from_chars on every string of length <= 3 (thorough 4) over {-,0,1,9,a,z,space} x bases "
+            "{10,16,36} x {i8,u8,i32,u64}; year_month_day/weekday/sys_days/year_month_day_last for every day in [-4000,4000] "
+            "(thorough +-9000); duration_cast/floor/ceil/round/abs of milliseconds in [-3000,3000] (thorough +-7000) to seconds and to "
+            "ratio<5,7>; 20 algorithms on every sequence of length <= 5 (thorough 6) over {0,1,2} x every split point. evaluations = "
+            "table entries executed at run time and compared with the compiler's table; distinct_nontrivial = entries whose argument "
+            "tuple is not all-zero / all-empty (+0.0, 0, empty strings, the all-zero history), distinct by content hash (tables up "
+            "to 20000 entries) or by construction (product tables).",
     "assumptions": [
         "g++ 12 constant evaluator and code generator are the two executors; no third oracle (a value both paths get wrong is C14/C16/C18's business, not C13's)",
         "x86-64, default rounding mode (rint/lrint/llrint round to nearest even)",
